@@ -99,3 +99,15 @@ package serializers
 //@   invariant L0: [C03:inv@root] !(nil in elems(relationships)) && (forall i int, j int :: 0 <= i && i < _i && 0 <= j && j < len(bom.NodeList.Edges[i].To) ==> (exists k int :: 0 <= k && k < len(relationships) && relationships[k] != nil && relationships[k].RefA.ElementRefID == bom.NodeList.Edges[i].From && relationships[k].RefA.DocumentRefID == "" && relationships[k].RefB.ElementRefID == bom.NodeList.Edges[i].To[j] && relationships[k].RefB.DocumentRefID == "" && relationships[k].Relationship == sbom.Edge_Type.ToSPDX2(bom.NodeList.Edges[i].Type)))
 //@   invariant L1: [C03:inv@root] !(nil in elems(relationships)) && (forall i int, j int :: 0 <= i && i < _i1 && 0 <= j && j < len(bom.NodeList.Edges[i].To) ==> (exists k int :: 0 <= k && k < len(relationships) && relationships[k] != nil && relationships[k].RefA.ElementRefID == bom.NodeList.Edges[i].From && relationships[k].RefA.DocumentRefID == "" && relationships[k].RefB.ElementRefID == bom.NodeList.Edges[i].To[j] && relationships[k].RefB.DocumentRefID == "" && relationships[k].Relationship == sbom.Edge_Type.ToSPDX2(bom.NodeList.Edges[i].Type)))
 //@   invariant L1: [C03:inv@root] e != nil && e == bom.NodeList.Edges[_i1] && 0 <= _i1 && _i1 < len(bom.NodeList.Edges) && 0 <= _i && _i <= len(relationships) && (forall j int :: 0 <= j && j < _i ==> relationships[len(relationships) - _i + j] != nil && relationships[len(relationships) - _i + j].RefA.ElementRefID == e.From && relationships[len(relationships) - _i + j].RefA.DocumentRefID == "" && relationships[len(relationships) - _i + j].RefB.ElementRefID == e.To[j] && relationships[len(relationships) - _i + j].RefB.DocumentRefID == "" && relationships[len(relationships) - _i + j].Relationship == sbom.Edge_Type.ToSPDX2(e.Type))
+
+// ---------------------------------------------------------------------------
+// C02: where each attribute of a node lands in its CycloneDX component
+// ---------------------------------------------------------------------------
+//@ pred cdxCompOf(c *cyclonedx.Component, n *sbom.Node) = c.BOMRef == n.Id && c.Name == n.Name && c.Version == n.Version && c.Description == n.Description && c.Copyright == n.Copyright && (n.Type == 1 ==> c.Type == "file") && ((n.Identifiers != nil && (1 in n.Identifiers)) ==> c.PackageURL == n.Identifiers[1]) && (!(n.Identifiers != nil && (1 in n.Identifiers)) ==> c.PackageURL == "")
+
+//@ func CDX.nodeToComponent
+//@   props C02
+//@   inline
+//@   ensures [C02:cdx:component:nil] (result == nil) <==> (n == nil)
+//@   ensures [C02:cdx:component:scalars] n != nil ==> cdxCompOf(result, n)
+//@   invariant L4: [C02:inv] c != nil && fresh(c) && c.BOMRef == n.Id && c.Name == n.Name && c.Version == n.Version && c.Description == n.Description && c.Copyright == "" && (n.Type == 1 ==> c.Type == "file") && ((1 in _V) ==> c.PackageURL == n.Identifiers[1]) && (!(1 in _V) ==> c.PackageURL == "")
